@@ -102,11 +102,21 @@ func (s *Scraper) ParseResponse(do func(rows []parser.Row) error) error {
 		}
 	}()
 
-	return parser.ParseStream(s.reader, time.Now().UnixNano()/1e6,
+	err := parser.ParseStream(s.reader, time.Now().UnixNano()/1e6,
 		false,
 		do, func(str string) {
 			s.log.Print(str)
 		})
+	if err != nil {
+		return err
+	}
+
+	// the parser treats some read errors (e.g. connection reset by peer) as a normal end of stream
+	// such response is broken off, do not report it as a succeeded scrape
+	if r, ok := s.reader.(*wrappedReader); ok && r.readErr != nil {
+		return errors.Wrap(r.readErr, "read response body")
+	}
+	return nil
 }
 
 // StatisticsSeriesResult is the samples count in one scrape
